@@ -114,6 +114,28 @@ class Gen:
             return [1, name, PWS.get(name, "x"), 0, 0, r.choice([1, 2])]   # computed for another method / uri
         return [1, r.choice(NAMES + ["nobody"]), PWS.get(name, "x"), 0, 0, 0]
 
+    def forged(self):
+        """the server-internal header user_name_in_token as sent by a client: any spelling, possibly twice,
+        naming somebody else (preferably an administrator or whoever has wide rights)"""
+        r = self.rng
+        keys = ["user_name_in_token", "User_name_in_token", "USER_NAME_IN_TOKEN", "User_Name_In_Token", "uSER_nAME_iN_tOKEN"]
+        wide = [n for n, u in self.users.items() if u[2] or u[3] == "*" or u[4] == "*"]
+        def who():
+            x = r.random()
+            if x < 0.5 and wide:
+                n = r.choice(wide)
+            elif x < 0.9:
+                n = r.choice(NAMES)
+            else:
+                n = r.choice(["nobody", "", "admin"])
+            return n if r.random() < 0.8 else n.upper()
+        h = [[r.choice(keys), who()]]
+        if r.random() < 0.3:
+            h.append([r.choice(keys), who()])
+        if r.random() < 0.1:
+            h.append(["X-Forwarded-User", who()])
+        return h
+
     # -- scenarios
     def sc_http(self):
         r = self.rng
@@ -288,6 +310,10 @@ class Gen:
                self.sc_wsp, self.sc_wsp, self.sc_wsflv, self.sc_soup]
         for _ in range(r.randint(1, 3 if not thorough else 5)):
             r.choice(scs)()
+        # client-chosen request headers: copies of the header the interceptors pass the verified name in
+        for e in self.ev:
+            if e[0] in (7, 10, 11):
+                e.append(self.forged() if r.random() < 0.4 else [])
         # tokens are referred to by issue index: only *successful* logins/refreshes issue, so the
         # generator's indices drift after a failed one; that is intended (it produces never-issued tokens)
         return [[users0, self.ext, PATHS], self.ev]
@@ -355,7 +381,9 @@ def run(ck):
              "clock ticks around both expiry times, refreshes and further logins interleaved between login/open and the requests; "
              "token variants: own, refresh-as-access, none, garbage, another user's, superseded, expired, never issued; digest "
              "variants: right, none, wrong password, stale nonce, foreign nonce, other method/uri, other user; user or path switched "
-             "mid-session; plus an unstructured stream of arbitrary events in arbitrary order and one regression history per "
+             "mid-session; 40% of the HTTP / WebSocket / API requests carry 1-3 client-chosen headers: the internal user_name_in_token "
+             "key in five spellings, duplicated, naming an administrator / a user with * rights / any user / nobody; "
+             "plus an unstructured stream of arbitrary events in arbitrary order and one regression history per "
              "repaired defect. non-trivial = a request that follows an administrator's change or tick made after a login/open. "
              "second stream: the D24 predicting function (session id -> MD5 of the following counter values) replayed on the server.",
         trusted=["MD5 treated as collision free (a digest response verifies iff it was computed from the stored password); "
@@ -371,7 +399,8 @@ def _u(n, admin, push, pull): return [n, PWS[n], admin, push, pull]
 _env = [[_u("bob", 0, "", "/a/*"), _u("ann", 0, "/p/*", "/x"), _u("root", 1, "", ""), _u("eve", 0, "", "/a/b")],
         ["/a/b", "/x"], PATHS]
 def _c(n, secret=None, nm=0, bm=0): return [1, n, secret or PWS[n], 0, nm, bm]
-REGRESSIONS = [
+_F = lambda n, k="user_name_in_token": [[k, n]]
+REGRESSIONS_RAW = [
     # D20 narrowed, then withdrawn, then deleted
     [_env, [[3, "bob", PWS["bob"]], [10, 0, "/a/b", A(0), 0], [0, "bob", PWS["bob"], 0, "", "/c", 0], [10, 0, "/a/b", A(0), 0],
             [10, 1, "/a/b", A(0), 0], [0, "bob", PWS["bob"], 0, "", "/a/b", 0], [10, 1, "/a/b", A(0), 0], [1, "bob"], [10, 1, "/a/b", A(0), 0]]],
@@ -406,3 +435,24 @@ REGRESSIONS = [
             [3, "root", PWS["root"]], [11, 1, A(3), _u("bob", 0, "", ""), 0, "bob"], [11, 0, A(2), _u("bob", 0, "", ""), 0, "bob"],
             [2, 604800], [4, R(2)], [4, R(3)]]],
 ]
+
+REGRESSIONS_RAW += [
+    # a caller with a valid token of its own names somebody else in the header the interceptors use internally
+    [_env, [[3, "bob", PWS["bob"]], [10, 0, "/x", A(0), 0, _F("root")], [10, 1, "/x", A(0), 0, _F("ann", "User_Name_In_Token")],
+            [10, 2, "/x", A(0), 1, _F("ROOT", "USER_NAME_IN_TOKEN")], [11, 1, A(0), _u("bob", 0, "", ""), 0, "bob", _F("root")],
+            [11, 2, A(0), _u("bob", 1, "*", "*"), 1, "bob", _F("root") + _F("root", "User_name_in_token")],
+            [11, 3, A(0), _u("bob", 0, "", ""), 0, "ann", _F("root")], [7, 3, "/x", A(0), 0, _F("root")],
+            [7, 0, "/x", A(0), 0, _F("ann")], [8, 0, 1, "/x"], [7, 1, "/x", A(0), 0, _F("ann")], [9, 1, 1, "/x"],
+            [10, 0, "/a/b", A(0), 0, _F("eve")], [10, 0, "/a/b", A(0), 0, _F("nobody")], [10, 0, "/a/b", [0], 0, _F("root")]]],
+    # ... and may not borrow rights over a WebSocket session either: upgraded on a path of its own, acts as the named user
+    [_env, [[3, "bob", PWS["bob"]], [7, 0, "/a/b", A(0), 0, _F("ann")], [8, 0, 2, "/p/q"], [8, 0, 4, "/p/q"], [8, 0, 6, "/p/q"],
+            [8, 0, 1, "/a/b"], [3, "ann", PWS["ann"]], [7, 1, "/x", A(1), 0, []], [7, 2, "/x", A(0), 1, _F("ann")], [7, 2, "/x", A(1), 1, _F("bob")]]],
+]
+def _pad(c):
+    for e in c[1]:
+        if e[0] in (7, 10) and len(e) < 6:
+            e.append([])
+        if e[0] == 11 and len(e) < 7:
+            e.append([])
+    return c
+REGRESSIONS = [_pad(c) for c in REGRESSIONS_RAW]
